@@ -5,6 +5,7 @@ import CoapVerif.Lemmas.Conserve
 import CoapVerif.Lemmas.PduFixed
 import CoapVerif.Lemmas.MsgHold
 import CoapVerif.Lemmas.MsgLayerW
+import CoapVerif.Lemmas.ObserveWait
 /-
 C06 — the retransmission queue: every pending message is (re)transmitted on the RFC 7252 §4.2 schedule and
 ends in exactly one outcome.
@@ -1307,5 +1308,132 @@ theorem w_drain_break_strands_witness :
     let lw := runW (initW 0 [{}] [true]) [.hold 0, .submit 0 false 101 0, .submit 0 true 102 0, .connect 0, .prepare]
     lw.dev = true ∧ (lw.l.getS 0).est = true ∧ (lw.l.getS 0).conActive = 0 ∧
     (lw.l.getS 0).delayq.map (·.mid) = [102] ∧ lw.l.q.nodes = [] ∧ lw.l.out.head? = some (.wait 0 0) := by decide
+
+/-! ## (11) an ACK that carries the message id ends the Confirmable whatever code it carries (round X06, seed C06-11)
+
+"… until an ACK or RST carrying its message id arrives from that peer": the ACK branch of `coap_dispatch` removes the
+node by (session, message id) BEFORE it looks at the code.  `Msg.rxAckReq` transcribes the branch for an ACK whose code
+is a request method (0.01 … 0.31): it is the same function as `Msg.rxBad` (the invalid-class check at the top of
+`coap_dispatch`), so `Ev.rxBad` stands for both and every whole-run theorem of section (7) — `m_single_outcome`
+(`remC` counts it), `m_never_sent_again`, `m_schedule_all`, `m_due_fires` — ranges over such ACKs at any time. -/
+open Coap.Msg in
+/-- **ack_request_code_is_bad_ack** (every state): an ACK with a request code is handled exactly like an ACK with an
+invalid code class: node removed by (session, mid), NSTART slot released (delay queue drained), ONE NACK BAD_RESPONSE
+with the sent PDU iff a node was found. -/
+theorem ack_request_code_is_bad_ack (l : L) (s mid : Nat) : rxAckReq l s mid = rxBad l s mid := by
+  unfold rxAckReq rxBad
+  cases h : removeNode l.q.nodes s mid with
+  | mk sent rest => cases sent <;> rfl
+
+open Coap.Msg in
+/-- **m_solo_ack_request_code**: ONE Confirmable on an idle endpoint, an ACK with its message id and a request code
+arriving after the `k`-th retransmission (any `k`): the queue is empty, the slot is free, exactly one NACK
+(BAD_RESPONSE) — and by `m_solo_quiet_after` nothing is ever transmitted again. -/
+theorem m_solo_ack_request_code (se : Sess) (t0 T mid k : Nat) (hopen : se.sockOpen = true) (hest : se.est = true)
+    (hdq : se.delayq = []) :
+    afterRx (rxAckReq (soloState se t0 T mid k) 0 mid) =
+      soloDone se (sched t0 T k) (sched t0 T k) (.nack (sched t0 T k) 0 .bad mid true :: soloOut t0 T mid k) ∧
+    Msg.step (soloState se t0 T mid k) (.rxBad 0 mid) =
+      soloDone se (sched t0 T k) (sched t0 T k) (.nack (sched t0 T k) 0 .bad mid true :: soloOut t0 T mid k) := by
+  have h1 : rxBad (soloState se t0 T mid k) 0 mid =
+      soloDone se (sched t0 T k) (sched t0 T k)
+        (.nack (sched t0 T k) 0 .bad mid true :: soloOut t0 T mid k) := by
+    simp [rxBad, soloState, soloL, soloNode, removeNode, release, connected, drain, L.getS, L.setS, L.emit,
+      soloDone, hest, hdq]
+  have h0 : ((soloState se t0 T mid k).getS 0).sockOpen = true := by
+    simp [soloState, soloL, L.getS, hopen]
+  refine ⟨?_, ?_⟩
+  · rw [ack_request_code_is_bad_ack, h1]
+    exact afterRx_empty _ rfl
+  · simp only [Msg.step, h0, if_true]
+    rw [h1]
+    exact afterRx_empty _ rfl
+
+open Coap.Msg in
+/-- non-vacuity / witness (the driver's replay of `msg 2.0.1.500.4.1 - s:0:c:1:0 t:100 q:0:1:1 t:3000`): CON 1 at 0, an ACK
+with code 0.01 for it at 100: one NACK BAD_RESPONSE, queue empty, at 3100 (past the former deadline 2000) nothing is
+sent and the wait is 0 -/
+example : (Msg.run (Msg.init 0 [{}]) [.submit 0 true 1 0, .setNow 100, .rxBad 0 1, .setNow 3100, .prepare]).out =
+      [.wait 3100 0, .nack 100 0 .bad 1 true, .sub (some 1), .tx 0 0 1 0 true] ∧
+    rxAckReq (Msg.run (Msg.init 0 [{}]) [.submit 0 true 1 0, .setNow 100]) 0 1 =
+      rxBad (Msg.run (Msg.init 0 [{}]) [.submit 0 true 1 0, .setNow 100]) 0 1 ∧
+    (rxAckReq (Msg.run (Msg.init 0 [{}]) [.submit 0 true 1 0, .setNow 100]) 0 1).q.nodes = [] := by decide
+
+/-! ## (12) a Confirmable transmitted from inside `coap_io_prepare_io` counts for the wait it returns (round X06, seed C06-12)
+
+`coap_io_prepare_io_lkd` of a context with observable resources calls `coap_check_notify_lkd` FIRST; a Confirmable Observe
+notification sent there goes through `coap_send_internal` / `coap_wait_ack` like any `coap_send` (`Msg.notifyAll` =
+`submit` per notification), then the due loop runs, then the wait is computed (`Msg.prepareNotify`).  The server side of
+the exchange (observer list, dirty flags, which notifications are due) is C11's model `Coap.Observe`; `Model/ObserveWait.lean`
+adds the returned wait to it and is what the compiled code is compared with (op `obsw`). -/
+open Coap.Msg in
+/-- **notify_wait_le_every_deadline** (every state, every list of notifications sent from inside the call, any number of
+sessions, with or without NSTART room): the wait `coap_io_prepare_io` returns is the one computed AFTER the notifications
+were queued: it never exceeds the time to any pending deadline — those of the notifications just transmitted included —,
+is exactly the time to the earliest one (mod 2^32), and is the value reported to the caller. -/
+theorem notify_wait_le_every_deadline (l : L) (ns : List Notif) :
+    let r := prepareCore (notifyAll l ns)
+    (prepareNotify l ns).out.head? = some (.wait r.1.now r.2) ∧
+    (prepareNotify l ns).q = r.1.q ∧
+    (∀ e ∈ abs r.1.q, r.2 ≤ e.deadline - r.1.now) ∧
+    (∀ d, Spec.SQ.earliest (abs r.1.q) = some d → r.2 = (d - r.1.now) % 4294967296) := by
+  intro r
+  have h := wait_le_every_deadline (notifyAll l ns)
+  refine ⟨?_, ?_, h.1, h.2.1⟩
+  · simp only [prepareNotify, prepare, L.emit, List.head?_cons]; rfl
+  · simp only [prepareNotify, prepare, L.emit]; rfl
+
+open Coap.Msg in
+/-- non-vacuity / witness: an idle endpoint (empty send queue), one Confirmable notification (PRNG byte 0: T = 2000) sent
+from inside `coap_io_prepare_io` at 5000: it is pending for 7000 and the wait reported is 2000 — not 0 ("nothing
+pending"), which is what computing the wait BEFORE `coap_check_notify` (seed C06-12) reports: second conjunct. -/
+example : (prepareNotify (Msg.init 5000 [{}]) [⟨0, true, 7, 0⟩]).out =
+      [.wait 5000 2000, .sub (some 7), .tx 5000 0 7 0 true] ∧
+    (abs (prepareNotify (Msg.init 5000 [{}]) [⟨0, true, 7, 0⟩]).q).map (·.deadline) = [7000] ∧
+    (notifyAll (prepare (Msg.init 5000 [{}])) [⟨0, true, 7, 0⟩]).out =
+      [.sub (some 7), .tx 5000 0 7 0 true, .wait 5000 0] := by decide
+
+open Coap.Observe Coap.ObsWait in
+/-- **obs_wait_le_every_deadline_partial** — the same clause on C11's SERVER model (`Coap.Observe`: observers, dirty flags,
+`checkNotify` inside `io`), which is what the compiled code is compared with on `obsw` lines.  For every state in which the
+send queue is in deadline order, nothing in it is due and no unreferenced session is past its idle timeout (`NoExpired` — what
+the session loop leaves, `io_noExpired`): the wait in ticks is positive ("something is pending" is never reported as 0), and
+neither it nor the `unsigned int` milliseconds returned exceed the time to ANY queued deadline; they are equal below 2^32.
+`_partial`: the FULL statement is the same conclusion for the state after `io` of EVERY state reached by `Coap.Observe.run`
+from `init` without the two queue hypotheses — that the queue of a run is sorted and that `retransmitDue` has fuel for every
+due node are invariants of `Coap.Observe` that are not proved here (on the C06 model they are: `queue_abs_invariant`,
+`m_due_fires`); on the compiled code both are checked on every `obsw` line (oracle `oracle_obsw` + exact tie of `Q[…]`). -/
+theorem obs_wait_le_every_deadline_partial (st : State) (ncli : Nat)
+    (hsorted : st.sendq.Pairwise (fun a b => a.due ≤ b.due))
+    (hnd : ∀ q ∈ st.sendq, st.now < q.due) (hid : NoExpired st) :
+    ∀ q ∈ st.sendq, 0 < tickWait st ncli ∧ tickWait st ncli ≤ q.due - st.now ∧
+      waitOf st ncli ≤ q.due - st.now ∧ (tickWait st ncli < 4294967296 → waitOf st ncli = tickWait st ncli) :=
+  wait_le_every_deadline_of st ncli hsorted hnd hid
+
+open Coap.Observe Coap.ObsWait in
+/-- **obs_io_wait_le_every_deadline_partial**: `coap_io_prepare_io_lkd` itself (`ioWait` = `checkNotify`, due loop, session
+loop, wait) from EVERY state: the value returned is computed from the state the call LEAVES — after the notifications of this
+call were queued — and, when that queue is in deadline order with nothing due, it is positive and not beyond any deadline in
+it, the notification just transmitted included.  (`_partial` for the same two hypotheses.) -/
+theorem obs_io_wait_le_every_deadline_partial (st : State) (ncli : Nat)
+    (hsorted : (io st).1.sendq.Pairwise (fun a b => a.due ≤ b.due))
+    (hnd : ∀ q ∈ (io st).1.sendq, (io st).1.now < q.due) :
+    (ioWait st ncli).2.2 = waitOf (io st).1 ncli ∧
+    ∀ q ∈ (io st).1.sendq, 0 < tickWait (io st).1 ncli ∧ waitOf (io st).1 ncli ≤ q.due - (io st).1.now ∧
+      (tickWait (io st).1 ncli < 4294967296 → waitOf (io st).1 ncli = tickWait (io st).1 ncli) := by
+  refine ⟨?_, ?_⟩
+  · rcases h : io st with ⟨st1, o⟩
+    simp only [ioWait, h]
+  · intro q hq
+    have h := wait_le_every_deadline_of (io st).1 ncli hsorted hnd (io_noExpired st) q hq
+    exact ⟨h.1, h.2.2.1, h.2.2.2⟩
+
+open Coap.Observe in
+/-- non-vacuity / witness (`obsw st=30 R=c0 C=1 reg:0:0:… chg:0 adv:500`): a NOTIFY_CON resource, one observer, a change,
+then the I/O step at 1500 with an EMPTY send queue: the notification goes out from inside the call, is queued for 3500, the
+hypotheses hold and the wait returned is 2000 -/
+example : let st := (Coap.Observe.run (init [mkRes 0 true false 0] 30000) [.reg 0 0 1 0 true 1, .chg 0, .adv 500]).1
+    st.sendq.map (·.due) = [3500] ∧ st.now = 1500 ∧ waitOf st 1 = 2000 ∧
+    st.sendq.Pairwise (fun a b => a.due ≤ b.due) ∧ (∀ q ∈ st.sendq, st.now < q.due) := by decide
 
 end Coap.C06
